@@ -25,6 +25,7 @@ SHIM_NOTES = {
     "struct": "struct.pack/unpack: standard sizes, two's complement, struct.error when out of range (CPython docs); no floats",
     "hex": "binascii.hexlify/unhexlify/bytes.fromhex/bytes.hex/hex()/int(s,16) are the usual mutually inverse hex-digit maps",
     "ord": "ord/chr are the identity on code points",
+    "bool": "bool(x) of a symbolic integer is its symbolic truth value x != 0",
 }
 
 
@@ -480,7 +481,30 @@ def sym_max(*a, **k):
     return r
 
 
+class _BoolMeta(type):
+    def __instancecheck__(cls, obj):
+        return type(obj) is SymBool or _real_isinstance(obj, bool)
+
+    def __call__(cls, x=False):
+        if type(x) is SymInt:
+            return x != 0
+        if type(x) is SymBool:
+            return x
+        return bool(x)
+
+    def __eq__(cls, o):
+        return o is cls or o is bool
+
+    def __hash__(cls):
+        return hash(bool)
+
+
+class bool_shim(metaclass=_BoolMeta):
+    """bool(x) of a symbolic integer is the symbolic truth value (no fork until it is branched on)"""
+
+
 DEFAULT = {
+    "bool": bool_shim,
     "int": int_shim,
     "range": sym_range,
     "bytes": bytes_shim,
